@@ -129,7 +129,7 @@ Ltac conj := repeat match goal with |- _ /\ _ => split end.
 Ltac spec_leaf :=
   unfold sres_spec, keep, sess_ok, sess_claims, ppp_frame, sent_on, ProtoLCP, ProtoPAP, ProtoIPCP in *; cbn;
   split; [intros f Hf; frames_tac; eauto
-         | split; [intros f sid Hf He; frames_tac; cbn in He; try discriminate
+         | split; [intros f sid Hf He; frames_tac; cbn in He; try discriminate; try (split; [assumption|discriminate])
                   | try exact I; conj; try reflexivity; try tauto; try discriminate; try congruence;
                     try (intros [?|?]; [discriminate | tauto]);
                     try (intros _; right; rewrite N.eqb_refl; split; [reflexivity | intros; first [reflexivity | congruence]]) ]].
@@ -150,11 +150,11 @@ Proof.
   destruct (c_radius c) eqn:Er.
   - destruct (oracle =? 0) eqn:Eo.
     + apply N.eqb_eq in Eo. subst oracle. unfold start_ipcp.
-      destruct (c_has_pool c); [destruct (st_avail st) as [|ip rest]|]; cbn -[sres_spec];
+      destruct (c_has_pool c); [destruct (assoc_get _ _); [|destruct (st_avail st) as [|ip rest]]|]; cbn -[sres_spec];
         try (destruct (s_ip s) eqn:Ei); spec_leaf.
     + spec_leaf.
   - unfold start_ipcp.
-    destruct (c_has_pool c); [destruct (st_avail st) as [|ip rest]|]; cbn -[sres_spec];
+    destruct (c_has_pool c); [destruct (assoc_get _ _); [|destruct (st_avail st) as [|ip rest]]|]; cbn -[sres_spec];
       try (destruct (s_ip s) eqn:Ei); spec_leaf.
 Qed.
 
@@ -173,3 +173,515 @@ Proof.
   destruct (proto =? ProtoPAP); [apply handle_pap_spec|].
   destruct (proto =? ProtoIPCP); [apply handle_ipcp_spec|]. spec_leaf.
 Qed.
+
+(* ------------------------------------------------------------------ table-level invariant *)
+Record Inv (st : state) (acc : list N) : Prop := {
+  inv_ok : forall s, In s (st_sessions st) -> sess_ok s;
+  inv_claims : forall s, In s (st_sessions st) -> sess_claims s -> In (s_inst s) acc;
+  inv_nodup : NoDup (map s_id (st_sessions st)) }.
+
+Lemma Inv_incl st a b : Inv st a -> incl a b -> Inv st b.
+Proof. intros [H1 H2 H3] Hi. constructor; auto. Qed.
+
+Lemma Inv_init c : Inv (init c) [].
+Proof. constructor; cbn; try tauto. constructor. Qed.
+
+(* what one step guarantees, given the invariant before it *)
+Definition step_ok (c : config) (st : state) (acc : list N) (src : N) (x : state * out * list N) : Prop :=
+  let st' := fst (fst x) in
+  let r := snd (fst x) in
+  o_sessions r = st_sessions st' /\
+  Inv st' (accepts c r ++ acc) /\
+  (forall f sid, In f (o_frames r) -> ef_is ProtoIPCP 2 f = Some sid ->
+     exists s, In s (st_sessions st') /\ s_id s = sid /\ In (s_inst s) (accepts c r ++ acc)) /\
+  (forall s, In s (st_sessions st) -> s_mac s <> src -> In s (st_sessions st')).
+
+Lemma noop_ok c st acc src : Inv st acc -> step_ok c st acc src (noop st).
+Proof.
+  intros HI. unfold step_ok, noop; cbn. split; [reflexivity|]. split; [eapply Inv_incl; eauto; apply incl_appr, incl_refl|].
+  split; [intros f sid []|auto].
+Qed.
+
+Lemma padi_ok c st acc src tags : Inv st acc -> step_ok c st acc src (handle_padi c st src tags).
+Proof.
+  intros HI. unfold handle_padi. destruct (match find_tag tags TagServiceName with Some _ => _ | None => _ end);
+    [apply noop_ok; auto|].
+  unfold step_ok; cbn. split; [reflexivity|]. split; [eapply Inv_incl; eauto; apply incl_appr, incl_refl|].
+  split; [|auto]. intros f sid [<-|[]] He. cbn in He. discriminate.
+Qed.
+
+Lemma padr_ok c st acc src tags : Inv st acc -> step_ok c st acc src (handle_padr c st src tags).
+Proof.
+  intros HI. unfold handle_padr. destruct (find_tag tags TagACCookie); [|apply noop_ok; auto].
+  destruct (65535 <=? blen_s (st_sessions st)); [apply noop_ok; auto|].
+  destruct (find_id _ _ _) as [id|] eqn:Ef.
+  2:{ unfold step_ok; cbn. split; [reflexivity|]. split; [eapply Inv_incl; eauto; apply incl_appr, incl_refl|].
+      split; [intros f sid []|auto]. }
+  apply find_id_fresh in Ef. destruct HI as [H1 H2 H3].
+  unfold step_ok, lcp_request; cbn. split; [reflexivity|]. split; [constructor; cbn|split].
+  - intros s Hs. apply in_insert in Hs. destruct Hs as [->|Hs]; [|auto]. unfold sess_ok; cbn. discriminate.
+  - intros s Hs Hc. apply in_insert in Hs. destruct Hs as [->|Hs]; [|apply in_or_app; right; auto].
+    destruct Hc as [Hc|Hc]; cbn in Hc; [discriminate|congruence].
+  - apply nodup_insert; auto.
+  - intros f sid [<-|[<-|[]]] He; cbn in He; discriminate.
+  - intros s Hs _. apply in_insert. auto.
+Qed.
+
+Lemma drop_ok c st acc src s av al fr rad :
+  Inv st acc -> In s (st_sessions st) -> s_mac s = src ->
+  (forall f sid, In f fr -> ef_is ProtoIPCP 2 f = Some sid -> False) ->
+  step_ok c st acc src (drop_session st s av al, mk_out (drop_session st s av al) fr rad false, @nil N).
+Proof.
+  intros [H1 H2 H3] Hs Hm Hfr. unfold step_ok; cbn. split; [reflexivity|]. split; [constructor; cbn|split].
+  - intros x Hx. apply in_remove in Hx. apply H1; tauto.
+  - intros x Hx Hc. apply in_remove in Hx. apply in_or_app; right. apply H2; tauto.
+  - apply nodup_remove; auto.
+  - intros f sid Hf He. exfalso; eauto.
+  - intros x Hx Hne. apply in_remove. split; auto. intros E. apply Hne. rewrite <- Hm. f_equal.
+    eapply nodup_id_inj; eauto.
+Qed.
+
+Lemma padt_ok c st acc src sid : Inv st acc -> step_ok c st acc src (handle_padt gates_on c st src sid).
+Proof.
+  intros HI. unfold handle_padt. destruct (find_sess (st_sessions st) sid) as [s|] eqn:Ef; [|apply noop_ok; auto].
+  apply find_sess_some in Ef. destruct Ef as [Hs _]. cbn [g_owner gates_on andb].
+  destruct (s_mac s =? src) eqn:Em; cbn [negb]; [|apply noop_ok; auto]. apply N.eqb_eq in Em.
+  cbn [orb]. apply drop_ok; auto; intros f sd [].
+Qed.
+
+Lemma ef_is_sess m i p d proto code sid : ef_is proto code (ESess m i p d) = Some sid -> sid = i.
+Proof. cbn. destruct d; [discriminate|]. destruct (_ && _); [congruence|discriminate]. Qed.
+
+Lemma session_ok c st acc src sid proto payload oracle :
+  Inv st acc -> step_ok c st acc src (handle_session gates_on c st src sid proto payload oracle).
+Proof.
+  intros HI. unfold handle_session.
+  destruct (find_sess (st_sessions st) sid) as [s|] eqn:Ef; [|apply noop_ok; auto].
+  apply find_sess_some in Ef. destruct Ef as [Hs _]. cbn [g_owner g_auth gates_on andb].
+  destruct (s_mac s =? src) eqn:Em; cbn [negb orb]; [|apply noop_ok; auto]. apply N.eqb_eq in Em.
+  rewrite andb_false_r. cbn [app].
+  pose proof (handle_ppp_spec c st (bump_in s) proto payload oracle) as Sp.
+  destruct Sp as [Sf [Sa Ss]]. cbn [s_mac s_id bump_in] in Sf.
+  destruct (r_sess (handle_ppp gates_on c st (bump_in s) proto payload oracle)) as [s'|] eqn:Er.
+  2:{ apply drop_ok; auto. intros f sd Hf He. destruct (Sa f sd Hf He) as [_ Hn]. apply Hn; reflexivity. }
+  destruct Ss as [Eid [Emac [Einst [Hok Hcl]]]]. cbn [s_id s_mac s_inst bump_in] in Eid, Emac, Einst.
+  destruct HI as [H1 H2 H3].
+  assert (Hin' : In s' (replace_sess (st_sessions st) s')).
+  { apply replace_has. rewrite Eid. apply in_map. exact Hs. }
+  set (rr := handle_ppp gates_on c st (bump_in s) proto payload oracle) in *.
+  unfold step_ok; cbn. split; [reflexivity|].
+  assert (Hacc : sess_claims s' -> In (s_inst s') (accepts c (mk_out
+            {| st_sessions := replace_sess (st_sessions st) s'; st_macidx := st_macidx st; st_next := st_next st;
+               st_ninst := st_ninst st; st_avail := r_avail rr; st_alloc := r_alloc rr |} (r_frames rr) (r_rad rr) false) ++ acc)).
+  { intros Hc. apply in_or_app. destruct (Hcl Hc) as [Hc0|[Hsent Hrad]].
+    - right. rewrite Einst. apply H2; auto.
+    - left. unfold accepts; cbn.
+      assert (Eg : c_radius c && negb (r_rad rr =? 1) = false).
+      { destruct (c_radius c); [rewrite Hrad by reflexivity; reflexivity|reflexivity]. }
+      rewrite Eg. apply in_map. apply filter_In. split; [exact Hin'|]. rewrite Eid. exact Hsent. }
+  split; [constructor; cbn|split].
+  - intros x Hx. apply in_replace in Hx. destruct Hx as [->|[Hx _]]; [|auto]. apply Hok. apply (H1 s Hs).
+  - intros x Hx Hc. apply in_replace in Hx. destruct Hx as [->|[Hx _]]; [auto|]. apply in_or_app; right. auto.
+  - rewrite ids_replace. exact H3.
+  - intros f sd Hf He. destruct (Sa f sd Hf He) as [Ha _]. cbn in Ha.
+    destruct (Sf f Hf) as [p [d ->]]. apply ef_is_sess in He. subst sd.
+    exists s'. split; [exact Hin'|]. split; [exact Eid|]. apply in_or_app; right. rewrite Einst. apply H2; auto. left; exact Ha.
+  - intros x Hx Hne. apply replace_keeps; auto. rewrite Eid. intros E. apply Hne. rewrite <- Em. f_equal.
+    eapply nodup_id_inj; eauto.
+Qed.
+
+Lemma step_step_ok c st acc o : Inv st acc -> step_ok c st acc (op_src o) (step c st o).
+Proof.
+  intros HI. unfold step, step_g. cbn [g_copy gates_on]. unfold step_h.
+  destruct (negb _); [apply noop_ok; auto|].
+  destruct (op_frame o) as [code sid tags|code sid proto payload|]; [| |apply noop_ok; auto].
+  - destruct (code =? CodePADI); [apply padi_ok; auto|].
+    destruct (code =? CodePADR); [apply padr_ok; auto|].
+    destruct (code =? CodePADT); [apply padt_ok; auto|apply noop_ok; auto].
+  - apply session_ok; auto.
+Qed.
+
+(* ------------------------------------------------------------------ runs *)
+Lemma exec_snoc g c ops o : exec_g g c (ops ++ [o]) = fst (fst (step_g g c (exec_g g c ops) o)).
+Proof. unfold exec_g. rewrite fold_left_app. reflexivity. Qed.
+
+Lemma outs_from_app g c st a b :
+  outs_from g c st (a ++ b) =
+  outs_from g c st a ++ outs_from g c (fold_left (fun st o => fst (fst (step_g g c st o))) a st) b.
+Proof. revert st. induction a as [|x a IH]; intros st; cbn; [reflexivity|]. rewrite IH. reflexivity. Qed.
+
+Lemma outs_snoc g c ops o : outs_g g c (ops ++ [o]) = outs_g g c ops ++ [out_at_g g c ops o].
+Proof. unfold outs_g. rewrite outs_from_app. reflexivity. Qed.
+
+Definition acc_of (c : config) (ops : list op) : list N := flat_map (accepts c) (outs c ops).
+
+Lemma acc_of_snoc c ops o : acc_of c (ops ++ [o]) = acc_of c ops ++ accepts c (out_at c ops o).
+Proof. unfold acc_of, outs. rewrite outs_snoc, flat_map_app. cbn. rewrite app_nil_r. reflexivity. Qed.
+
+Lemma exec_inv c ops : Inv (exec c ops) (acc_of c ops).
+Proof.
+  induction ops as [|o ops IH] using rev_ind; [apply Inv_init|].
+  destruct (step_step_ok c _ _ o IH) as [_ [HI _]].
+  unfold exec. rewrite exec_snoc. eapply Inv_incl; [exact HI|].
+  rewrite acc_of_snoc. intros k Hk. apply in_app_or in Hk. apply in_or_app. tauto.
+Qed.
+
+Lemma acc_of_accepted c ops k : In k (acc_of c ops) -> accepted_in c (outs c ops) k.
+Proof. unfold acc_of. intros H. apply in_flat_map in H. exact H. Qed.
+
+Lemma snapshot_table : snapshot_is_table gates_on.
+Proof.
+  intros c ops o. destruct (step_step_ok c _ _ o (exec_inv c ops)) as [H _].
+  rewrite exec_snoc. exact H.
+Qed.
+
+Lemma established_gate : established_after_auth gates_on.
+Proof.
+  intros c ops o s Hs He. rewrite snapshot_table in Hs. apply acc_of_accepted.
+  destruct (exec_inv c (ops ++ [o])) as [H1 H2 _]. apply H2; auto. left. apply H1; auto.
+Qed.
+
+Lemma clientip_gate : clientip_after_auth gates_on.
+Proof.
+  intros c ops o s Hs Hip. rewrite snapshot_table in Hs. apply acc_of_accepted.
+  destruct (exec_inv c (ops ++ [o])) as [H1 H2 _]. apply H2; auto. right. exact Hip.
+Qed.
+
+Lemma ipcp_ack_gate : ipcp_ack_after_auth gates_on.
+Proof.
+  intros c ops o f sid Hf He.
+  destruct (step_step_ok c _ _ o (exec_inv c ops)) as [Hsn [_ [Hfr _]]].
+  destruct (Hfr f sid Hf He) as [s [Hs [Hid Hacc]]]. exists s. split; [|split; [exact Hid|]].
+  - unfold out_at_g. unfold step, exec in Hsn. cbn beta zeta in Hsn. rewrite Hsn. exact Hs.
+  - apply acc_of_accepted. rewrite acc_of_snoc. apply in_app_or in Hacc. apply in_or_app. tauto.
+Qed.
+
+Lemma ownership : mac_ownership gates_on.
+Proof.
+  intros c ops o s Hs Hne. destruct (step_step_ok c _ _ o (exec_inv c ops)) as [_ [_ [_ Hown]]].
+  rewrite exec_snoc. apply Hown; auto.
+Qed.
+
+(* ------------------------------------------------------------------ the monitor never rejects the Model *)
+Lemma mem_In k l : mem k l = true <-> In k l.
+Proof.
+  unfold mem. rewrite existsb_exists. split.
+  - intros [x [H E]]. apply N.eqb_eq in E. subst. exact H.
+  - intros H. exists k. split; [exact H|apply N.eqb_refl].
+Qed.
+
+Lemma sess_eqb_refl s : sess_eqb s s = true.
+Proof.
+  unfold sess_eqb. rewrite !N.eqb_refl, Bool.eqb_reflx. destruct (s_ip s); cbn; rewrite ?N.eqb_refl; reflexivity.
+Qed.
+
+Lemma accept_model c st ms o :
+  m_prev ms = st_sessions st -> Inv st (m_acc ms) ->
+  exists ms', accept c ms o (snd (fst (step c st o))) = inl ms' /\
+              m_prev ms' = st_sessions (fst (fst (step c st o))) /\ Inv (fst (fst (step c st o))) (m_acc ms').
+Proof.
+  intros Hp HI. destruct (step_step_ok c st (m_acc ms) o HI) as [Hsn [HI' [Hfr Hown]]].
+  set (r := snd (fst (step c st o))) in *. set (st' := fst (fst (step c st o))) in *.
+  destruct HI' as [H1 H2 H3].
+  unfold accept.
+  assert (E0 : established_ok (accepts c r ++ m_acc ms) r = true).
+  { unfold established_ok. apply forallb_forall. intros s Hs. rewrite Hsn in Hs.
+    destruct (s_state s =? StEstablished) eqn:E; cbn; [|reflexivity]. apply N.eqb_eq in E.
+    apply mem_In. apply H2; auto. left. apply H1; auto. }
+  assert (E1 : clientip_ok (accepts c r ++ m_acc ms) r = true).
+  { unfold clientip_ok. apply forallb_forall. intros s Hs. rewrite Hsn in Hs.
+    destruct (s_ip s) eqn:E; [|reflexivity]. apply mem_In. apply H2; auto. right. congruence. }
+  assert (E2 : ipcp_ack_ok (accepts c r ++ m_acc ms) r = true).
+  { unfold ipcp_ack_ok. apply forallb_forall. intros f Hf. destruct (ef_is ProtoIPCP 2 f) as [sid|] eqn:E; [|reflexivity].
+    destruct (Hfr f sid Hf E) as [s [Hs [Hid Hacc]]]. apply existsb_exists. exists s. rewrite Hsn. split; [exact Hs|].
+    apply andb_true_iff. split; [apply N.eqb_eq; exact Hid|apply mem_In; exact Hacc]. }
+  assert (E3 : ownership_ok (m_prev ms) (op_src o) r = true).
+  { unfold ownership_ok. apply forallb_forall. intros s Hs. rewrite Hp in Hs.
+    destruct (s_mac s =? op_src o) eqn:E; cbn; [reflexivity|]. apply N.eqb_neq in E.
+    apply existsb_exists. exists s. rewrite Hsn. split; [apply Hown; auto|apply sess_eqb_refl]. }
+  rewrite E0, E1, E2, E3. cbn. eexists. split; [reflexivity|]. cbn. split; [exact Hsn|]. constructor; auto.
+Qed.
+
+Lemma monitor_accepts_from c st ms i ops :
+  m_prev ms = st_sessions st -> Inv st (m_acc ms) ->
+  accept_trace caccept i (c, ms) (combine ops (outs_from gates_on c st ops)) = (0, 0).
+Proof.
+  revert st ms i. induction ops as [|o ops IH]; intros st ms i Hp HI; cbn; [reflexivity|].
+  destruct (accept_model c st ms o Hp HI) as [ms' [Ea [Hp' HI']]].
+  unfold caccept at 1. cbn [fst snd]. change (step_h gates_on c st o) with (step c st o). rewrite Ea. apply IH; auto.
+Qed.
+
+Lemma monitor_accepts_model c ops :
+  accept_trace caccept 1 (c, sinit) (combine ops (outs c ops)) = (0, 0).
+Proof. apply monitor_accepts_from; [reflexivity|apply Inv_init]. Qed.
+
+(* ------------------------------------------------------------------ each repair is necessary: witnesses *)
+Definition accepted_inb (c : config) (rs : list out) (k : N) : bool := existsb (fun r => mem k (accepts c r)) rs.
+Lemma accepted_in_b c rs k : accepted_in c rs k -> accepted_inb c rs k = true.
+Proof. intros [r [Hr Hk]]. apply existsb_exists. exists r. split; [exact Hr|apply mem_In; exact Hk]. Qed.
+Lemma in_existsb s l : In s l -> existsb (sess_eqb s) l = true.
+Proof. intros H. apply existsb_exists. exists s. split; [exact H|apply sess_eqb_refl]. Qed.
+
+Definition cfg0 : config :=
+  {| c_mac := 100; c_service := [105]; c_acname := [66]; c_chap := false; c_mru := 1492; c_radius := true;
+     c_has_pool := true; c_pool := [167837698; 167837699]; c_server_ip := 167772161; c_dns1 := None; c_dns2 := None |}.
+Definition w_padr (src : N) : op :=
+  {| op_src := src; op_dst := 1; op_frame := FDisc CodePADR 0 [(TagACCookie, [1;2;3;4])]; op_rad := 0 |}.
+Definition w_padi (src : N) : op := {| op_src := src; op_dst := 0; op_frame := FDisc CodePADI 0 []; op_rad := 0 |}.
+Definition w_padt (src sid : N) : op := {| op_src := src; op_dst := 1; op_frame := FDisc CodePADT sid []; op_rad := 0 |}.
+Definition w_sess (src sid proto : N) (payload : bytes) (rad : N) : op :=
+  {| op_src := src; op_dst := 1; op_frame := FSess 0 sid proto payload; op_rad := rad |}.
+Definition w_pap : bytes := [1;4;0;12; 1;97; 4;103;111;111;100].      (* Authenticate-Request "a"/"good" *)
+Definition w_happy : list op :=
+  [w_padr 1; w_sess 1 1 ProtoLCP (ctl 2 1 []) 0; w_sess 1 1 ProtoPAP w_pap 0; w_sess 1 1 ProtoIPCP (ctl 1 7 []) 0].
+
+Definition no_auth_gate : gates := {| g_auth := false; g_owner := true; g_copy := true |}.
+Definition no_owner_gate : gates := {| g_auth := true; g_owner := false; g_copy := true |}.
+Definition no_mac_copy : gates := {| g_auth := true; g_owner := true; g_copy := false |}.
+
+Lemma established_refuted_by g c ops o :
+  (exists s, In s (o_sessions (out_at_g g c ops o)) /\ s_state s = StEstablished /\
+             accepted_inb c (outs_g g c (ops ++ [o])) (s_inst s) = false) ->
+  ~ established_after_auth g.
+Proof. intros [s [Hs [He Hb]]] H. specialize (H c ops o s Hs He). apply accepted_in_b in H. congruence. Qed.
+
+Lemma ownership_refuted_by g c ops o :
+  (exists s, In s (st_sessions (exec_g g c ops)) /\ (s_mac s =? op_src o) = false /\
+             existsb (sess_eqb s) (st_sessions (exec_g g c (ops ++ [o]))) = false) ->
+  ~ mac_ownership g.
+Proof.
+  intros [s [Hs [Hm Hb]]] H. apply N.eqb_neq in Hm. specialize (H c ops o s Hs Hm). apply in_existsb in H. congruence.
+Qed.
+
+(* IPCP Configure-Ack right after PADS => Established with no authentication *)
+Lemma established_refuted_no_auth_gate : ~ established_after_auth no_auth_gate.
+Proof.
+  apply (established_refuted_by _ cfg0 [w_padr 1] (w_sess 1 1 ProtoIPCP (ctl 2 1 []) 0)).
+  vm_compute. eexists. split; [left; reflexivity|split; reflexivity].
+Qed.
+Lemma established_refuted_prefix : ~ established_after_auth gates_off.
+Proof.
+  apply (established_refuted_by _ cfg0 [w_padr 1] (w_sess 1 1 ProtoIPCP (ctl 2 1 []) 0)).
+  vm_compute. eexists. split; [left; reflexivity|split; reflexivity].
+Qed.
+(* after a RADIUS reject the same frame still reached Established *)
+Lemma established_refuted_after_reject : ~ established_after_auth no_auth_gate.
+Proof.
+  apply (established_refuted_by _ cfg0 [w_padr 1; w_sess 1 1 ProtoPAP w_pap 1] (w_sess 1 1 ProtoIPCP (ctl 2 1 []) 0)).
+  vm_compute. eexists. split; [left; reflexivity|split; reflexivity].
+Qed.
+(* PADT from a station that does not own the session removed it *)
+Lemma ownership_refuted_no_owner_gate : ~ mac_ownership no_owner_gate.
+Proof.
+  apply (ownership_refuted_by _ cfg0 [w_padr 1] (w_padt 2 1)).
+  vm_compute. eexists. split; [left; reflexivity|split; reflexivity].
+Qed.
+(* any frame from another station rewrote the owner MAC (ClientMAC aliased the receive buffer) *)
+Lemma ownership_refuted_no_mac_copy : ~ mac_ownership no_mac_copy.
+Proof.
+  apply (ownership_refuted_by _ cfg0 [w_padr 1] (w_padi 2)).
+  vm_compute. eexists. split; [left; reflexivity|split; reflexivity].
+Qed.
+Lemma ownership_refuted_prefix : ~ mac_ownership gates_off.
+Proof.
+  apply (ownership_refuted_by _ cfg0 [w_padr 1] (w_padi 2)).
+  vm_compute. eexists. split; [left; reflexivity|split; reflexivity].
+Qed.
+
+(* ------------------------------------------------------------------ non-vacuity *)
+Lemma established_reachable :
+  exists s, In s (o_sessions (out_at cfg0 w_happy (w_sess 1 1 ProtoIPCP (ctl 2 2 []) 0))) /\
+            s_state s = StEstablished /\ s_ip s <> None /\ s_auth s = true.
+Proof. vm_compute. eexists. split; [left; reflexivity|]. repeat split; discriminate. Qed.
+
+Lemma ipcp_ack_reachable :
+  exists f sid, In f (o_frames (out_at cfg0 (firstn 3 w_happy) (w_sess 1 1 ProtoIPCP (ctl 1 7 []) 0))) /\
+                ef_is ProtoIPCP 2 f = Some sid.
+Proof. vm_compute. eexists. eexists. split; [left; reflexivity|reflexivity]. Qed.
+
+(* a frame from station 2 addressed to station 1's session id: the record stays exactly as it was *)
+Lemma foreign_frame_example :
+  exists s, In s (st_sessions (exec cfg0 w_happy)) /\ s_mac s <> op_src (w_padt 2 1) /\ s_id s = 1 /\
+            st_sessions (exec cfg0 (w_happy ++ [w_padt 2 1])) = st_sessions (exec cfg0 w_happy) /\
+            st_sessions (exec cfg0 (w_happy ++ [w_padt 1 1])) = [].
+Proof. vm_compute. eexists. split; [left; reflexivity|]. repeat split; discriminate. Qed.
+
+(* ------------------------------------------------------------------ the monitor is sound for ANY trace
+   (in particular the real server's): if it accepts, the four clauses hold at every step, stated on the
+   observations alone. *)
+Definition table_after (init : list sess) (pre : list (op * out)) : list sess :=
+  fold_left (fun _ x => o_sessions (snd x)) pre init.
+
+Definition step_clauses (c : config) (rs : list out) (prev : list sess) (o : op) (r : out) : Prop :=
+  (forall s, In s (o_sessions r) -> s_state s = StEstablished -> accepted_in c rs (s_inst s)) /\
+  (forall s, In s (o_sessions r) -> s_ip s <> None -> accepted_in c rs (s_inst s)) /\
+  (forall f sid, In f (o_frames r) -> ef_is ProtoIPCP 2 f = Some sid ->
+     exists s, In s (o_sessions r) /\ s_id s = sid /\ accepted_in c rs (s_inst s)) /\
+  (forall s, In s prev -> s_mac s <> op_src o -> In s (o_sessions r)).
+
+Lemma opt_eqb_eq a b : opt_eqb a b = true -> a = b.
+Proof. destruct a, b; cbn; try discriminate; auto. intros H. apply N.eqb_eq in H. congruence. Qed.
+
+Lemma sess_eqb_eq a b : sess_eqb a b = true -> a = b.
+Proof.
+  destruct a, b. unfold sess_eqb; cbn. rewrite !andb_true_iff, !N.eqb_eq.
+  intros [[[[[[[[H1 H2] H3] H4] H5] H6] H7] H8] H9]. apply eqb_prop in H4. apply opt_eqb_eq in H5. congruence.
+Qed.
+
+Lemma accept_inl c ms o r ms' : accept c ms o r = inl ms' ->
+  ms' = {| m_prev := o_sessions r; m_acc := accepts c r ++ m_acc ms |} /\
+  forall rs, (forall k, In k (accepts c r ++ m_acc ms) -> accepted_in c rs k) ->
+  step_clauses c rs (m_prev ms) o r.
+Proof.
+  unfold accept.
+  destruct (established_ok _ r) eqn:E0; cbn; [|discriminate].
+  destruct (clientip_ok _ r) eqn:E1; cbn; [|discriminate].
+  destruct (ipcp_ack_ok _ r) eqn:E2; cbn; [|discriminate].
+  destruct (ownership_ok _ _ r) eqn:E3; cbn; [|discriminate].
+  intros H; inversion H; subst; clear H. split; [reflexivity|]. intros rs Hrs.
+  unfold established_ok in E0. unfold clientip_ok in E1. unfold ipcp_ack_ok in E2. unfold ownership_ok in E3.
+  rewrite forallb_forall in E0, E1, E2, E3. repeat split.
+  - intros s Hs He. specialize (E0 s Hs). apply N.eqb_eq in He. rewrite He in E0. cbn in E0.
+    apply Hrs. apply mem_In. exact E0.
+  - intros s Hs Hip. specialize (E1 s Hs). destruct (s_ip s); [|congruence]. apply Hrs. apply mem_In. exact E1.
+  - intros f sid Hf He. specialize (E2 f Hf). rewrite He in E2. apply existsb_exists in E2.
+    destruct E2 as [s [Hs Hb]]. apply andb_true_iff in Hb. destruct Hb as [Hid Hm]. apply N.eqb_eq in Hid.
+    exists s. split; [exact Hs|split; [exact Hid|]]. apply Hrs. apply mem_In. exact Hm.
+  - intros s Hs Hne. specialize (E3 s Hs). apply N.eqb_neq in Hne. rewrite Hne in E3. cbn in E3.
+    apply existsb_exists in E3. destruct E3 as [x [Hx He]]. apply sess_eqb_eq in He. subst x. exact Hx.
+Qed.
+
+Lemma accepted_in_mono c rs rs' k : accepted_in c rs k -> incl rs rs' -> accepted_in c rs' k.
+Proof. intros [r [Hr Hk]] Hi. exists r. split; auto. Qed.
+
+Lemma monitor_sound_from c tr : forall ms i rs0,
+  (forall k, In k (m_acc ms) -> accepted_in c rs0 k) ->
+  accept_trace caccept i (c, ms) tr = (0, 0) ->
+  forall pre o r post, tr = pre ++ (o, r) :: post ->
+  step_clauses c (rs0 ++ map snd pre ++ [r]) (table_after (m_prev ms) pre) o r.
+Proof.
+  induction tr as [|[o1 r1] tl IH]; intros ms i rs0 Hacc Hrun pre o r post Heq.
+  - destruct pre; discriminate.
+  - cbn in Hrun. unfold caccept at 1 in Hrun. cbn [fst snd] in Hrun.
+    destruct (accept c ms o1 r1) as [ms'|n] eqn:Ea; [|inversion Hrun; lia].
+    destruct (accept_inl _ _ _ _ _ Ea) as [Ems Hcl].
+    destruct pre as [|[o2 r2] pre'].
+    + cbn in Heq. inversion Heq; subst o1 r1 tl. cbn [map app table_after fold_left].
+      apply Hcl. intros k Hk. apply in_app_or in Hk. destruct Hk as [Hk|Hk].
+      * exists r. split; [apply in_or_app; right; left; reflexivity|exact Hk].
+      * eapply accepted_in_mono; [apply Hacc; exact Hk|apply incl_appl, incl_refl].
+    + cbn in Heq. inversion Heq; subst o2 r2 tl.
+      specialize (IH ms' (i + 1) (rs0 ++ [r1])).
+      assert (Hacc' : forall k, In k (m_acc ms') -> accepted_in c (rs0 ++ [r1]) k).
+      { rewrite Ems. cbn. intros k Hk. apply in_app_or in Hk. destruct Hk as [Hk|Hk].
+        - exists r1. split; [apply in_or_app; right; left; reflexivity|exact Hk].
+        - eapply accepted_in_mono; [apply Hacc; exact Hk|apply incl_appl, incl_refl]. }
+      specialize (IH Hacc' Hrun pre' o r post eq_refl).
+      rewrite Ems in IH. cbn [m_prev] in IH. cbn [map snd app table_after fold_left].
+      rewrite <- app_assoc in IH. exact IH.
+Qed.
+
+Lemma monitor_sound c tr :
+  accept_trace caccept 1 (c, sinit) tr = (0, 0) ->
+  forall pre o r post, tr = pre ++ (o, r) :: post ->
+  step_clauses c (map snd pre ++ [r]) (table_after [] pre) o r.
+Proof.
+  intros Hrun pre o r post Heq.
+  apply (monitor_sound_from c tr sinit 1 [] (fun k (H : In k []) => match H with end) Hrun pre o r post Heq).
+Qed.
+
+(* ------------------------------------------------------------------ "that same session": creation indexes
+   identify records — no two records of the table share one, and every index in use is below the
+   counter the next PADR will take its index from (so an index is never given out twice). *)
+Record InvI (st : state) : Prop := {
+  ii_lt : forall s, In s (st_sessions st) -> s_inst s < st_ninst st;
+  ii_inst : NoDup (map s_inst (st_sessions st));
+  ii_ids : NoDup (map s_id (st_sessions st)) }.
+
+Lemma nodup_map_filter {A B} (f : A -> B) (p : A -> bool) l : NoDup (map f l) -> NoDup (map f (filter p l)).
+Proof.
+  induction l as [|y l IH]; cbn; [auto|]. intros ND. inversion ND as [|? ? Hy ND']; subst.
+  destruct (p y); cbn; auto. constructor; auto. intros H. apply Hy. apply in_map_iff in H.
+  destruct H as [x [E H]]. apply filter_In in H. rewrite <- E. apply in_map. tauto.
+Qed.
+
+Lemma nodup_inst_insert s' l :
+  NoDup (map s_inst l) -> ~ In (s_inst s') (map s_inst l) -> NoDup (map s_inst (insert_sess s' l)).
+Proof.
+  induction l as [|y l IH]; cbn; intros ND Hn.
+  - constructor; [tauto|constructor].
+  - destruct (s_id s' <? s_id y); cbn.
+    + constructor; [cbn; tauto|exact ND].
+    + inversion ND as [|? ? Hy ND']; subst. constructor.
+      * intros H. apply in_map_iff in H. destruct H as [x [E H]]. apply in_insert in H.
+        destruct H as [->|H]; [apply Hn; left; auto|apply Hy; rewrite <- E; apply in_map; exact H].
+      * apply IH; [exact ND'|tauto].
+Qed.
+
+Lemma inst_replace l s s' :
+  NoDup (map s_id l) -> In s l -> s_id s' = s_id s -> s_inst s' = s_inst s ->
+  map s_inst (replace_sess l s') = map s_inst l.
+Proof.
+  intros ND Hs Eid Einst. unfold replace_sess. rewrite map_map. apply map_ext_in. intros a Ha.
+  destruct (s_id a =? s_id s') eqn:E; [|reflexivity]. apply N.eqb_eq in E.
+  assert (a = s) by (eapply nodup_id_inj; eauto; congruence). subst a. exact Einst.
+Qed.
+
+Lemma drop_invI st s av al : InvI st -> InvI (drop_session st s av al).
+Proof.
+  intros [H1 H2 H3]. constructor; cbn.
+  - intros x Hx. apply in_remove in Hx. apply H1; tauto.
+  - apply nodup_map_filter; auto.
+  - apply nodup_remove; auto.
+Qed.
+
+Lemma step_invI c st o : InvI st -> InvI (fst (fst (step c st o))).
+Proof.
+  intros HI. unfold step, step_g. cbn [g_copy gates_on]. unfold step_h.
+  destruct (negb _); [exact HI|].
+  destruct (op_frame o) as [code sid tags|code sid proto payload|]; [| |exact HI].
+  - destruct (code =? CodePADI).
+    { unfold handle_padi. destruct (match find_tag tags TagServiceName with Some _ => _ | None => _ end); exact HI. }
+    destruct (code =? CodePADR).
+    { unfold handle_padr. destruct (find_tag tags TagACCookie); [|exact HI].
+      destruct (65535 <=? blen_s (st_sessions st)); [exact HI|].
+      destruct (find_id _ _ _) as [id|] eqn:Ef; [|exact HI]. apply find_id_fresh in Ef.
+      destruct HI as [H1 H2 H3]. unfold lcp_request. constructor; cbn.
+      - intros x Hx. apply in_insert in Hx. destruct Hx as [->|Hx]; cbn; [lia|]. specialize (H1 x Hx). lia.
+      - apply nodup_inst_insert; auto. cbn. intros H. apply in_map_iff in H. destruct H as [x [E Hx]].
+        specialize (H1 x Hx). lia.
+      - apply nodup_insert; auto. }
+    destruct (code =? CodePADT); [|exact HI].
+    unfold handle_padt. destruct (find_sess (st_sessions st) sid) as [s|]; [|exact HI].
+    destruct (g_owner gates_on && negb (s_mac s =? op_src o)); [exact HI|]. cbn. apply drop_invI; auto.
+  - unfold handle_session. destruct (find_sess (st_sessions st) sid) as [s|] eqn:Ef; [|exact HI].
+    apply find_sess_some in Ef. destruct Ef as [Hs _].
+    destruct (g_owner gates_on && negb (s_mac s =? op_src o)); [exact HI|].
+    pose proof (handle_ppp_spec c st (bump_in s) proto payload (op_rad o)) as [_ [_ Ss]].
+    destruct (r_sess _) as [s'|]; cbn; [|apply drop_invI; auto].
+    destruct Ss as [Eid [_ [Einst _]]]. cbn [s_id s_inst bump_in] in Eid, Einst.
+    destruct HI as [H1 H2 H3]. constructor; cbn.
+    + intros x Hx. apply in_replace in Hx. destruct Hx as [->|[Hx _]]; [rewrite Einst|]; auto.
+    + rewrite (inst_replace _ s s'); auto.
+    + rewrite ids_replace. exact H3.
+Qed.
+
+Lemma exec_invI c ops : InvI (exec c ops).
+Proof.
+  induction ops as [|o ops IH] using rev_ind.
+  - constructor; cbn; try tauto; constructor.
+  - unfold exec. rewrite exec_snoc. apply step_invI. exact IH.
+Qed.
+
+Lemma inst_identifies c ops a b :
+  In a (st_sessions (exec c ops)) -> In b (st_sessions (exec c ops)) -> s_inst a = s_inst b -> a = b.
+Proof.
+  intros Ha Hb E. destruct (exec_invI c ops) as [_ H2 _]. revert H2 Ha Hb E. generalize (st_sessions (exec c ops)).
+  induction l as [|x l IH]; cbn; [tauto|]. intros ND Ha Hb E. inversion ND as [|? ? Hn ND']; subst.
+  destruct Ha as [->|Ha], Hb as [->|Hb]; auto.
+  - exfalso. apply Hn. rewrite E. apply in_map. exact Hb.
+  - exfalso. apply Hn. rewrite <- E. apply in_map. exact Ha.
+Qed.
+
+Lemma inst_below_counter c ops s : In s (st_sessions (exec c ops)) -> s_inst s < st_ninst (exec c ops).
+Proof. intros H. destruct (exec_invI c ops) as [H1 _ _]. auto. Qed.
